@@ -49,6 +49,7 @@ def field_aliases() -> Dict[Sym, Sym]:
 
 def interp_for(mod: Module, **kw: Any) -> Interp:
     kw.setdefault("aliases", field_aliases())
+    kw.setdefault("replay_logs", True)
     kw.setdefault("loop_roles", field_loop_roles)
     return Interp(mod, **kw)
 
